@@ -17,7 +17,7 @@ import (
 )
 
 // C06 through the HTTP close path, in real time: a `Connection: close` request whose response takes about
-// 1.5 s to drain to a peer that keeps reading slowly. The channel is the bootstrap's default (queued, waits
+// 2.5 s to drain to a peer that keeps reading slowly. The channel is the bootstrap's default (queued, waits
 // for pending writes): everything the handler wrote must reach the connection before it is closed.
 
 // slowConn: a connection that takes `per` for every write, honours write deadlines like a socket does and
@@ -83,12 +83,15 @@ func (asyncExec) Exec(a netty.Action) { go a() }
 
 func runC06http() {
 	emit("#case c06-http-close")
-	const bodyLen = 300 * 1024
+	const bodyLen = 200 * 1024
 	req := "GET /big HTTP/1.1\r\nHost: x\r\nConnection: close\r\n\r\n"
-	conn := &slowConn{in: bytes.NewReader([]byte(req)), per: 10 * time.Millisecond, closedCh: make(chan struct{})}
+	conn := &slowConn{in: bytes.NewReader([]byte(req)), per: 25 * time.Millisecond, closedCh: make(chan struct{})}
 	handler := http.HandlerFunc(func(w http.ResponseWriter, r *http.Request) {
-		w.Header().Set("Content-Length", "307200")
-		w.Write(bytes.Repeat([]byte{'z'}, bodyLen))
+		w.Header().Set("Content-Length", "204800")
+		piece := bytes.Repeat([]byte{'z'}, 2048)
+		for sent := 0; sent < bodyLen; sent += len(piece) { // produced piecemeal, as a handler streaming a file does
+			w.Write(piece)
+		}
 	})
 	pl := netty.NewPipeline()
 	pl.AddLast(xhttp.ServerCodec(), xhttp.Handler(handler))
